@@ -223,7 +223,7 @@ def optional_fields(rep: Report, prog: Program) -> None:
                 rep.ob(rule, f.fq(), f"{cfg.describe(m).split(': ', 1)[-1][:70]} runs iff {norm(v)} is present", f.loc(cfg.nodes[m].stmt), ok,
                        'skipped for an absent field, executed for a present one' if ok else
                        ('the value is iterated although the field is absent (None)' if m in r_none else 'a present field is never converted'))
-    rep.floor('C14-D1 optional fields', n, 2)
+    rep.floor('C14-D1 optional fields', n, 1)
 
 
 def index_checks(rep: Report, prog: Program) -> None:
